@@ -88,7 +88,13 @@ func Bind(name string, cases []OpCase, binds []string, sensitive bool) *Entry {
 		e.Bindings = append(e.Bindings, fmt.Sprintf("%d:%s", i, mode))
 		switch mode {
 		case BIn:
-			m.Inputs = append(m.Inputs, mb.IO{Name: nm, DT: o.V.DT, Shape: dyn(o.V.Shape, o.BatchAxis), NoShape: len(o.V.Shape) == 0 || o.NoShape})
+			sh := dyn(o.V.Shape, o.BatchAxis)
+			if o.DynSpatial {
+				for i := 2; i < len(sh); i++ {
+					sh[i] = 0
+				}
+			}
+			m.Inputs = append(m.Inputs, mb.IO{Name: nm, DT: o.V.DT, Shape: sh, NoShape: len(o.V.Shape) == 0 || o.NoShape})
 			slots = append(slots, inSlot{i, nm})
 			node.In = append(node.In, nm)
 		case BUndecl:
